@@ -23,10 +23,11 @@ LEVEL_TEXT = (
     "(+ padding); every jmp/b** is retargeted to the expansion start of its original target, target = len "
     "included (padding appended exactly then); non-gate instructions appear once, in order, patched only in "
     "their target; the borrowed-electron register of a carbon-carbon gate is not read before being re-set "
-    "(QStatic programs); step-for-step simulation of the vanilla program by the serialised NV program for "
+    "(scratch_ok, about the registers the emitted chunk writes); step-for-step simulation of the vanilla program by the serialised NV program for "
     "QStatic programs given the C07 gate hypothesis (transpile_simulates_partial, and "
-    "transpile_simulates_final_partial for terminating runs: same memory and non-Q registers modulo the padding "
-    "register C15 when the padding was appended; the unrestricted statement is false: F10, proved "
+    "transpile_simulates_final_partial for terminating runs: same memory and same registers - all non-Q registers "
+    "and every Q register that get_unused_register hands out nowhere in S - modulo the padding register C15 when "
+    "the padding was appended; the unrestricted statement is false: F10, proved "
     "counter-examples). The gate hypothesis is DISCHARGED for the generated table and a concrete semantics "
     "(expandSound_of_C07, transpile_simulates_C07_partial): gates apply the operator of their mnemonic; the proof "
     "uses C07's single_gates_eq / cnot_placements_eq / cphase_placements_eq and the kernel-decided tie "
